@@ -257,3 +257,7 @@ class ElboVI(_NoReplay):
         k = self.log[1][1]
         yield "optimiser_gets_objective_init_lr_iterations_tracking", k.get("elbo_fn") == "ELBO" and k.get("init_params") is init and k.get("learning_rate") is lr and k.get("n_iterations") is n and k.get("track_history") is track
         yield "returns_the_optimisers_result", path.value == "RESULT"
+
+from vt.contract import track as _track  # noqa: E402
+
+_track(EXPECT)
